@@ -36,6 +36,9 @@ var (
 
 // NewMMapRWManager returns a newly initialized MMapRWManager.
 func NewMMapRWManager(path string, capacity int64) (*MMapRWManager, error) {
+	if h, _, herr := verifFS("open", path, capacity, nil); h {
+		return nil, herr
+	}
 	f, err := os.OpenFile(path, os.O_CREATE|os.O_RDWR, 0644)
 	defer f.Close()
 
@@ -52,6 +55,7 @@ func NewMMapRWManager(path string, capacity int64) (*MMapRWManager, error) {
 	if err != nil {
 		return nil, err
 	}
+	verifTrackMMap(m, path)
 
 	return &MMapRWManager{m: m}, nil
 }
@@ -63,6 +67,9 @@ func (mm *MMapRWManager) WriteAt(b []byte, off int64) (n int, err error) {
 		return 0, ErrUnmappedMemory
 	} else if off >= int64(len(mm.m)) || off < 0 {
 		return 0, ErrIndexOutOfBound
+	}
+	if h, hn, herr := verifFS("write", verifMMapPath(mm.m), off, b); h {
+		return hn, herr
 	}
 
 	return copy(mm.m[off:], b), nil
@@ -82,10 +89,17 @@ func (mm *MMapRWManager) ReadAt(b []byte, off int64) (n int, err error) {
 
 // Sync synchronizes the mapping's contents to the file's contents on disk.
 func (mm *MMapRWManager) Sync() (err error) {
+	if h, _, herr := verifFS("sync", verifMMapPath(mm.m), 0, nil); h {
+		return herr
+	}
 	return mm.m.Flush()
 }
 
 //Close deletes the memory mapped region, flushes any remaining changes
 func (mm *MMapRWManager) Close() (err error) {
+	if h, _, herr := verifFS("close", verifMMapPath(mm.m), 0, nil); h {
+		return herr
+	}
+	verifUntrackMMap(mm.m)
 	return mm.m.Unmap()
 }
